@@ -76,11 +76,19 @@ ALLOWED_ERRORS = (RangeError, FingerError)
 # registry access and reference view of a tuning
 # ---------------------------------------------------------------------------------------
 def _registry():
+    """Every registered tuning, through the public API only (get_tunings() without constraints returns them
+    all; get_instruments() names the instruments): (INSTRUMENT, DESCRIPTION, tuning), sorted."""
     out = []
-    for key in sorted(tunings._known):
-        name, d = tunings._known[key]
-        for dk in sorted(d):
-            out.append((key, dk, d[dk]))
+    seen = set()
+    for instrument in [None] + list(tunings.get_instruments()):
+        for t in (tunings.get_tunings() if instrument is None else tunings.get_tunings(instrument)):
+            k = (t.instrument.upper(), t.description.upper())
+            if k not in seen:
+                seen.add(k)
+                out.append((k[0], k[1], t))
+    out.sort(key=lambda r: (r[0], r[1]))
+    if len(out) < 60:
+        raise engine.HarnessError("only %d registered tunings found through get_tunings()/get_instruments()" % len(out))
     return out
 
 
